@@ -4,7 +4,7 @@ run, their broken twins must end as DATA_RACE in every run - whatever the schedu
 usage: selftest_race.py [runs per scenario, default 60]   -> build/race_selftest.json, exit 0 iff all as expected"""
 import json, os, subprocess, sys
 VERIF = os.path.dirname(os.path.dirname(os.path.abspath(__file__)))
-CLEAN = [0, 1, 2, 3, 4, 5, 6, 7, 8]
+CLEAN = [0, 1, 2, 3, 4, 5, 6, 7, 8, 9]
 RACY = [100, 101, 103, 104, 108, 109]
 
 
@@ -13,7 +13,7 @@ def run(binary, sc, n):
     res = {}
     i = 0
     while i < n:
-        p = subprocess.run([os.path.join(VERIF, "build", "bin", binary), "--seed", "1", "--from", str(i), "--count", str(n - i)], env=env, stdout=subprocess.PIPE, stderr=subprocess.DEVNULL, text=True)
+        p = subprocess.run([os.path.join(VERIF, "build", "bin" + (("-" + os.environ["VERIF_BIN_TAG"]) if os.environ.get("VERIF_BIN_TAG") else ""), binary), "--seed", "1", "--from", str(i), "--count", str(n - i)], env=env, stdout=subprocess.PIPE, stderr=subprocess.DEVNULL, text=True)
         got = 0
         for l in p.stdout.splitlines():
             try:
